@@ -401,3 +401,70 @@ Example C15_ex_types :
   Ipv6FlowLabel_try_new 1048576 = TErr 1048576 1048575 /\ IpEcn_try_new 4 = Val (TErr 4 3) /\
   IpEcn_new_unchecked 4 = Fail UBRange.
 Proof. repeat split; vm_compute; reflexivity. Qed.
+
+(* ==== round3 smalls begin ==== *)
+(* Round 3 (audit clause b, "struct decoders"): `X::from_slice` (= `XSlice::from_slice(s)?.to_header()`)
+   on ARBITRARY bytes never hands an out-of-range value to a `new_unchecked` and every bounded
+   field of a returned header is in range.  So far stated for the single slice accessors,
+   Ipv4Header::read, Ipv6Header::read and SingleVlanHeader::from_bytes only.  `no_ub r P` :=
+   r <> Fail UBRange /\ forall a, r = Val a -> P a  (rejections ErrLen / ErrContent and the
+   out-of-slice marker OOB -- whose absence is C01's clause -- make it hold trivially; the
+   examples below are accepted inputs with every bounded field at its maximum).
+   Lemmas: BitFields/FromSliceRange.v (composition of the accessor lemmas along to_header). *)
+From EP Require Import BitFields.FromSliceRange.
+
+Theorem C15_dec_from_slice_vlan : forall s, bytes_ok s ->
+  no_ub (SingleVlanHeader_from_slice s) vlan_in_range /\ no_ub (SingleVlanSlice_decode s) vlan_in_range.
+Proof. exact vlan_struct_decoders_in_range. Qed.
+Print Assumptions C15_dec_from_slice_vlan.
+
+Theorem C15_dec_from_slice_ipv4 : forall s, bytes_ok s -> no_ub (Ipv4Header_from_slice s) v4_in_range.
+Proof. exact Ipv4Header_from_slice_in_range. Qed.
+Print Assumptions C15_dec_from_slice_ipv4.
+
+Theorem C15_dec_from_slice_ipv6 : forall s, bytes_ok s -> no_ub (Ipv6Header_from_slice s) v6_in_range.
+Proof. exact Ipv6Header_from_slice_in_range. Qed.
+Print Assumptions C15_dec_from_slice_ipv6.
+
+(* frag_in_range h := fr_fragment_offset h <= IpFragOffset_MAX_U16 *)
+Theorem C15_dec_from_slice_frag : forall s, bytes_ok s -> no_ub (Ipv6FragmentHeader_from_slice s) frag_in_range.
+Proof. exact Ipv6FragmentHeader_from_slice_in_range. Qed.
+Print Assumptions C15_dec_from_slice_frag.
+
+Theorem C15_dec_read_frag : forall reader, bytes_ok reader -> no_ub (Ipv6FragmentHeader_read reader) frag_in_range.
+Proof. exact Ipv6FragmentHeader_read_in_range. Qed.
+Print Assumptions C15_dec_read_frag.
+
+(* macsec_in_range h := ms_an h <= MacsecAn_MAX_U8 /\ ms_short_len h <= MacsecShortLen_MAX_U8 *)
+Theorem C15_dec_from_slice_macsec : forall s, bytes_ok s -> no_ub (MacsecHeader_from_slice s) macsec_in_range.
+Proof. exact MacsecHeader_from_slice_in_range. Qed.
+Print Assumptions C15_dec_from_slice_macsec.
+
+(* IgmpHeader::from_slice, IGMPv3 query arm: the header stores octet 8 raw; the stored octet is an
+   octet and the QRV getter on it is in range.
+   query_in_range (h, checksum) := q_raw_byte_8 h < 256 /\ no_ub (Query_qrv (q_raw_byte_8 h)) (fun v => v <= Qrv_MAX_U8) *)
+Theorem C15_dec_from_slice_igmp : forall s, bytes_ok s -> no_ub (IgmpQuery_from_slice s) query_in_range.
+Proof. exact IgmpQuery_from_slice_in_range. Qed.
+Print Assumptions C15_dec_from_slice_igmp.
+
+Check (eq_refl : frag_in_range = fun h => fr_fragment_offset h <= IpFragOffset_MAX_U16).
+Check (eq_refl : macsec_in_range = fun h => ms_an h <= MacsecAn_MAX_U8 /\ ms_short_len h <= MacsecShortLen_MAX_U8).
+Check (eq_refl : query_in_range = fun r => q_raw_byte_8 (fst r) < 256 /\
+                   no_ub (Query_qrv (q_raw_byte_8 (fst r))) (fun v => v <= Qrv_MAX_U8)).
+
+(* non-vacuity: ACCEPTED inputs whose bit fields are all ones: every bounded field at its maximum *)
+Example C15_ex_from_slice_accept :
+  SingleVlanHeader_from_slice [255; 255; 8; 0; 9] = Val (mkVlan 7 true 4095 2048) /\
+  (exists h, Ipv4Header_from_slice ([70; 255; 0; 24; 0; 1; 255; 255; 64; 6; 0; 0; 10; 0; 0; 1; 10; 0; 0; 2; 1; 1; 1; 0; 9]) = Val h /\
+     v4_dscp h = 63 /\ v4_ecn h = 3 /\ v4_fragment_offset h = 8191 /\ v4_options h = [1; 1; 1; 0]) /\
+  (exists h, Ipv6Header_from_slice (111 :: 255 :: 255 :: 255 :: repeat 0 36) = Val h /\
+     v6_traffic_class h = 255 /\ v6_flow_label h = 1048575) /\
+  Ipv6FragmentHeader_from_slice [17; 0; 255; 249; 18; 52; 86; 120; 9] = Val (mkFrag 17 8191 true 305419896) /\
+  Ipv6FragmentHeader_read [17; 0; 255; 249; 18; 52; 86; 120; 9] = Val (mkFrag 17 8191 true 305419896) /\
+  MacsecHeader_from_slice [115; 63; 0; 0; 0; 1; 1; 2; 3; 4; 5; 6; 7; 8; 8; 0; 9]
+    = Val (mkMacsec (Unmodified 2048) true true 3 63 1 (Some 72623859790382856)) /\
+  IgmpQuery_from_slice [17; 100; 0; 0; 224; 0; 0; 1; 255; 125; 0; 1; 10; 0; 0; 1]
+    = Val (mkQuery 100 [224; 0; 0; 1] 255 125 1, 0) /\
+  Query_qrv 255 = Val 7.
+Proof. repeat split; try (eexists; repeat split); vm_compute; reflexivity. Qed.
+(* ==== round3 smalls end ==== *)
